@@ -94,7 +94,7 @@ static URI_INLINE UriBool URI_FUNC(AppendSegment)(URI_TYPE(Uri) * uri,
 
 
 
-static URI_INLINE UriBool URI_FUNC(EqualsAuthority)(const URI_TYPE(Uri) * first,
+static URI_INLINE UriBool URI_FUNC(EqualsHost)(const URI_TYPE(Uri) * first,
 		const URI_TYPE(Uri) * second) {
 	/* IPv4 */
 	if (first->hostData.ip4 != NULL) {
@@ -118,6 +118,17 @@ static URI_INLINE UriBool URI_FUNC(EqualsAuthority)(const URI_TYPE(Uri) * first,
 	}
 
 	return !URI_FUNC(CompareRange)(&first->hostText, &second->hostText)
+			? URI_TRUE : URI_FALSE;
+}
+
+
+
+/* The authority is user info, host and port */
+static URI_INLINE UriBool URI_FUNC(EqualsAuthority)(const URI_TYPE(Uri) * first,
+		const URI_TYPE(Uri) * second) {
+	return (URI_FUNC(EqualsHost)(first, second)
+			&& !URI_FUNC(CompareRange)(&first->userInfo, &second->userInfo)
+			&& !URI_FUNC(CompareRange)(&first->portText, &second->portText))
 			? URI_TRUE : URI_FALSE;
 }
 
